@@ -7,7 +7,7 @@ CONSTANTS
   MaxSteps = 4
   MaxResumes = 2
   MaxCalls = 4
-  TrigKinds = {"manual", "msg", "flow_action"}
+  TrigKinds = {"manual", "msg", "flow_action", "campaign", "channel", "channel_gone", "optin", "optin_gone", "ticket", "ticket_gone"}
   ResumeKinds = {"msg", "timeout", "expiration", "dial"}
   NodeKinds = {"act", "failact", "split", "wait", "enter"}
   DfltChoices = {TRUE, FALSE}
